@@ -40,12 +40,18 @@ def check_case(ctx, ds, lname, n, schemes):
         table = refmodel.ref_table(universe, ds, s[0], s[1])
         ved, score, ranking = refmodel.ref_copeland(universe, table)
         scheme = mk_scheme(s)
-        for one in (True, False):
-            case = {'cfg': {}, 'dataset': ds, 'labels': lname, 'n': n, 'scheme': s, 'one': one}
+        for one, reused in ((True, False), (False, False), (True, True)):
+            case = {'cfg': {}, 'dataset': ds, 'labels': lname, 'n': n, 'scheme': s, 'one': one, 'reused_object': reused}
             ctx.evals += 1
+            if reused:
+                # a long-lived algorithm object that has already served every previous case of this shard
+                alg = _lib.setdefault('inst', _lib['A']())
+                ctx.count('executions_on_a_reused_algorithm_object')
+            else:
+                alg = _lib['A']()
             try:
                 with watchdog(30):
-                    c = _lib['A']().compute_consensus_rankings(dataset, scheme, one)
+                    c = alg.compute_consensus_rankings(dataset, scheme, one)
             except Exception as e:
                 ctx.violation('copeland-raises', case, None, ranking, exc=e)
                 continue
